@@ -448,7 +448,7 @@ def positive(fn, fx, o, depth=0):
 MAP_RX = r"(HashMap|BTreeMap|IndexMap)(<.*>)?"
 
 
-def map_inserts(fn, field):
+def map_inserts(fn, field, bulk=False):
     """calls that store a new entry into the map `.field`: `map.insert(k, v)`, or - entry API - `VacantEntry::insert` /
     `Entry::or_insert*` on an entry obtained from `map.entry(k)`"""
     out = [c for c in fn.calls(MAP_RX + r"::insert$") if ("." + field) in fn.recv(c)]
@@ -458,6 +458,9 @@ def map_inserts(fn, field):
         for c in fn.calls(r"(VacantEntry|Entry)(<.*>)?::(insert|insert_entry|or_insert|or_insert_with|or_insert_with_key|or_default)$"):
             if c.args and any(("call", n) in fn.roots(c.args[0]) for n in names):
                 out.append(c)
+    if bulk:
+        # `map.extend(iter)`: one insertion per item of the iterator
+        out += [c for c in fn.calls(r"Extend(<.*>)?>?::extend$|" + MAP_RX + r"::extend$") if ("." + field) in fn.recv(c)]
     return out
 
 
